@@ -44,6 +44,8 @@ fn operands(biff12: bool) -> (Vec<Expr>, Vec<Expr>) {
         l0.push(Expr::Area3d(x, cref(0, 26, true, true), cref(5, 30, true, false)));
     }
     l0.push(Expr::Name(0)); l0.push(Expr::Name(1));
+    l0.push(Expr::RefErr); l0.push(Expr::AreaErr);
+    for x in 0..3 { l0.push(Expr::RefErr3d(x)); l0.push(Expr::AreaErr3d(x)); }
     for i in [0u16, 7, 65535] { l0.push(Expr::Int(i)); }
     l0.push(Expr::Num(1.5)); l0.push(Expr::Num(0.25));
     for s in ["a", "x y", "", "A1", "caf\u{e9}", "\u{20ac}5", " pad ", "\u{20ac} "] { l0.push(Expr::Str(s.into())); }
@@ -65,6 +67,16 @@ fn depth1(l0: &[Expr], s0: &[Expr]) -> Vec<Expr> {
     for x in l0 { for op in ['+', '-', '%'] { v.push(Expr::Unary(op, b(x))); } v.push(Expr::Paren(b(x))); v.push(Expr::Func(24, "ABS", vec![x.clone()], false)); v.push(Expr::Func(4, "SUM", vec![x.clone()], true)); v.push(Expr::AttrSum(b(x))); }
     for (op, _) in BINOPS { for x in l0 { for y in s0 { v.push(Expr::Binary(op, b(x), b(y))); v.push(Expr::Binary(op, b(y), b(x))); } } }
     v.push(Expr::Func(19, "PI", vec![], false));
+    // CHOOSE with 1..4 choices (its PtgAttrChoose jump table has one entry more than choices), omitted arguments
+    for x in s0 { for n in 1..=4usize {
+        let mut args = vec![Expr::Int(1)]; for k in 0..n { args.push(if k % 2 == 0 { x.clone() } else { s0[(k * 5) % s0.len()].clone() }); }
+        v.push(Expr::Func(100, "CHOOSE", args, true));
+    } }
+    for x in s0 { for y in s0.iter().step_by(2) {
+        v.push(Expr::Func(1, "IF", vec![x.clone(), Expr::MissArg, y.clone()], true));
+        v.push(Expr::Func(1, "IF", vec![x.clone(), y.clone(), Expr::MissArg], true));
+        v.push(Expr::Func(4, "SUM", vec![Expr::MissArg, x.clone()], true));
+    } }
     for x in s0 { for y in s0 {
         v.push(Expr::Func(27, "ROUND", vec![x.clone(), y.clone()], false));
         v.push(Expr::Func(4, "SUM", vec![x.clone(), y.clone()], true));
@@ -96,10 +108,13 @@ fn features(e: &Expr, out: &mut std::collections::BTreeSet<&'static str>) {
         Expr::Ref3d(..) => { out.insert("ref3d"); }
         Expr::Area3d(..) => { out.insert("area3d"); }
         Expr::Name(_) => { out.insert("name"); }
+        Expr::RefErr | Expr::AreaErr => { out.insert("ref-err"); }
+        Expr::RefErr3d(_) | Expr::AreaErr3d(_) => { out.insert("ref-err-3d"); }
+        Expr::MissArg => { out.insert("missing-arg"); }
         Expr::Str(s) => { out.insert(if s.chars().any(|c| c as u32 > 0xFF) { "str-16bit" } else { "str" }); }
         Expr::Unary(_, x) | Expr::Paren(x) | Expr::AttrSum(x) => features(x, out),
         Expr::Binary(_, a, c) => { features(a, out); features(c, out); }
-        Expr::Func(_, _, args, _) => { for a in args { features(a, out); } }
+        Expr::Func(t, _, args, _) => { if *t == 100 { out.insert("choose"); } for a in args { features(a, out); } }
         _ => {}
     }
 }
@@ -108,9 +123,20 @@ fn node_kind(e: &Expr) -> &'static str {
     match e { Expr::Unary(..) => "unary", Expr::Binary(..) => "binary", Expr::Paren(_) => "paren", Expr::Func(_, _, _, true) => "funcvar", Expr::Func(..) => "func", Expr::AttrSum(_) => "attrsum", _ => "operand" }
 }
 
-fn hook_render(e: &Expr, biff12: bool, value_class: bool) -> Result<String, String> {
+/// serialisation modes: 0 value-class operands, 1 reference-class operands, 2 value class with the control tokens an
+/// application writes (PtgAttrSemi first, jump tokens inside IF and CHOOSE)
+const MODES: [u8; 3] = [0, 1, 2];
+fn ptg_bytes(e: &Expr, biff12: bool, mode: u8) -> Vec<u8> {
     let mut rgce = vec![];
-    to_ptg(e, biff12, value_class, &mut rgce);
+    match mode {
+        0 => to_ptg(e, biff12, true, &mut rgce),
+        1 => to_ptg(e, biff12, false, &mut rgce),
+        _ => { rgce.extend(crate::model::formula::ATTR_SEMI); crate::model::formula::with_control(|| to_ptg(e, biff12, true, &mut rgce)); }
+    }
+    rgce
+}
+fn hook_render(e: &Expr, biff12: bool, mode: u8) -> Result<String, String> {
+    let rgce = ptg_bytes(e, biff12, mode);
     let nm: Vec<(String, String)> = NAMES.iter().map(|n| (n.to_string(), "x".to_string())).collect();
     if biff12 {
         calamine::verif::xlsb::parse_formula(&rgce, &xti_sheets(), &nm)
@@ -150,11 +176,11 @@ fn sweep(rep: &Report, biff12: bool, thorough: bool) -> Vec<Expr> {
         let mut hi = 0u64;
         for e in chunk {
             let exp = render(e, &ctx);
-            for vc in [true, false] {
+            for vc in MODES {
                 let got = guarded(|| hook_render(e, biff12, vc));
                 hi ^= hash_of(&(&exp, vc));
                 h ^= hash_of(&format!("{got:?}"));
-                if vc { local.push((hash_of(&(fmt, &exp)), depth(e) >= 1, hash_of(&format!("{got:?}")))); }
+                if vc == 0 { local.push((hash_of(&(fmt, &exp)), depth(e) >= 1, hash_of(&format!("{got:?}")))); }
                 let bad = match &got { Ok(Ok(s)) => *s != exp, _ => true };
                 if bad {
                     let mut f = std::collections::BTreeSet::new();
@@ -162,8 +188,8 @@ fn sweep(rep: &Report, biff12: bool, thorough: bool) -> Vec<Expr> {
                     let what = match &got { Ok(Ok(s)) => format!("rendered {s:?}"), Ok(Err(er)) => format!("error {er}"), Err(p) => format!("panic {p}") };
                     let kind = match &got { Ok(Ok(_)) => "text", Ok(Err(_)) => "error", Err(_) => "panic" };
                     let site = if let Err(p) = &got { normalise_site(p.rsplit(" @ ").next().unwrap_or("")) } else { String::new() };
-                    rep.fail(&format!("{fmt}/tokens/{kind}/{}/{}{site}", node_kind(e), f.into_iter().collect::<Vec<_>>().join("+")), &format!("{what}, expected {exp:?}"), || {
-                        let mut rgce = vec![]; to_ptg(e, biff12, vc, &mut rgce);
+                    rep.fail(&format!("{fmt}/tokens/{kind}/{}/{}{}{site}", node_kind(e), f.into_iter().collect::<Vec<_>>().join("+"), if vc == 2 { "/control-tokens" } else { "" }), &format!("{what}, expected {exp:?}"), || {
+                        let rgce = ptg_bytes(e, biff12, vc);
                         Replay { json: json!({"format": fmt, "rgce_hex": rgce.iter().map(|x| format!("{x:02x}")).collect::<String>(), "expected": exp}), files: vec![] }
                     });
                     break;
@@ -174,10 +200,10 @@ fn sweep(rep: &Report, biff12: bool, thorough: bool) -> Vec<Expr> {
         crate::engine::crumb::clear();
         (hi, h)
     }).collect();
-    rep.eval(2 * n);
-    rep.add_states(n, 2 * n);
-    rep.trace(2 * n);
-    rep.extra(&format!("{fmt}_token_streams"), json!(2 * n));
+    rep.eval(3 * n);
+    rep.add_states(n, 3 * n);
+    rep.trace(3 * n);
+    rep.extra(&format!("{fmt}_token_streams"), json!(3 * n));
     let mut depth_hist = [0u64; 5];
     for e in &all { depth_hist[depth(e).min(4)] += 1; }
     rep.extra(&format!("{fmt}_asts_by_depth"), json!(depth_hist));
@@ -230,10 +256,12 @@ fn file_level(rep: &Report, fmt: &'static str, asts: &[Expr], thorough: bool) {
         let macro_first = (gi / 2) % 2 == 1;
         let reversed = (gi / 4) % 2 == 1;
         let nb = macro_first as u32;
+        // every other block of 8 files carries the control tokens an application writes
+        let fmode: u8 = if (gi / 8) % 2 == 1 { 2 } else { 0 };
         let bytes = match fmt {
             "xls" => {
                 let mut bc: Vec<biff8::BCell> = vec![biff8::BCell::Number { r: plain.0 as u16, c: plain.1 as u16, xf: 0, v: 1.0 }];
-                for (p, e) in &cells { let mut rgce = vec![]; crate::model::formula::with_name_base(nb, || to_ptg(e, false, true, &mut rgce)); bc.push(biff8::BCell::Formula { r: p.0 as u16, c: p.1 as u16, xf: 0, res: biff8::FRes::Num(1.0), rgce }); }
+                for (p, e) in &cells { let rgce = crate::model::formula::with_name_base(nb, || ptg_bytes(e, false, fmode)); bc.push(biff8::BCell::Formula { r: p.0 as u16, c: p.1 as u16, xf: 0, res: biff8::FRes::Num(1.0), rgce }); }
                 bc.sort_by_key(|c| match c { biff8::BCell::Formula { r, c, .. } | biff8::BCell::Number { r, c, .. } => (*r, *c), _ => (0, 0) });
                 let book = biff8::BBook { sheets: vec![biff8::BSheet::new(SHEETS[0], bc), biff8::BSheet::new(SHEETS[1], vec![]), biff8::BSheet::new(SHEETS[2], vec![])],
                     extern_sheets: Some(XTI_TAB.iter().map(|i| (*i as i16, *i as i16)).collect()),
@@ -251,7 +279,7 @@ fn file_level(rep: &Report, fmt: &'static str, asts: &[Expr], thorough: bool) {
                 cs.sort_by_key(|c| c.0);
                 for (p, e) in &cs {
                     if *p == plain { items.push(xlsb::BItem::Cell { row: plain.0, col: plain.1, style: 0, val: xlsb::BVal::Real(1.0) }); continue; }
-                    let mut rgce = vec![]; crate::model::formula::with_name_base(nb, || to_ptg(e, true, true, &mut rgce));
+                    let rgce = crate::model::formula::with_name_base(nb, || ptg_bytes(e, true, fmode));
                     let val = match p.0 % 4 { 0 => xlsb::BVal::FmlaNum(1.0, rgce), 1 => xlsb::BVal::FmlaStr("s".into(), rgce), 2 => xlsb::BVal::FmlaBool(true, rgce), _ => xlsb::BVal::FmlaErr(7, rgce) };
                     items.push(xlsb::BItem::Cell { row: p.0, col: p.1, style: 0, val });
                 }
@@ -266,7 +294,7 @@ fn file_level(rep: &Report, fmt: &'static str, asts: &[Expr], thorough: bool) {
             if fmt == "xls" { let mut wb: Xls<_> = Xls::new(Cursor::new(bytes.clone())).map_err(|e| format!("open: {e:?}"))?; wb.worksheet_formula(SHEETS[0]).map_err(|e| format!("worksheet_formula: {e:?}")) }
             else { let mut wb: Xlsb<_> = Xlsb::new(Cursor::new(bytes.clone())).map_err(|e| format!("open: {e:?}"))?; wb.worksheet_formula(SHEETS[0]).map_err(|e| format!("worksheet_formula: {e:?}")) }
         });
-        let replay = || Replay { json: json!({"format": fmt, "formulas": exp, "formula_less_name_first": macro_first, "substreams_reversed": reversed && fmt == "xls"}), files: vec![(fmt.to_string(), bytes.clone())] };
+        let replay = || Replay { json: json!({"format": fmt, "formulas": exp, "formula_less_name_first": macro_first, "control_tokens": fmode == 2, "substreams_reversed": reversed && fmt == "xls"}), files: vec![(fmt.to_string(), bytes.clone())] };
         let outcome = match &res {
             Err(p) => { let site = normalise_site(p.rsplit(" @ ").next().unwrap_or("")); rep.fail(&format!("{fmt}/file/panic/{site}"), &format!("panicked: {p}"), replay); hash_of(p) }
             Ok(Err(e)) => { let cl: String = e.chars().take_while(|c| *c != '(' && *c != '{').collect(); rep.fail(&format!("{fmt}/file/error/{}", cl.trim()), e, replay); hash_of(e) }
@@ -315,7 +343,8 @@ fn text_formats(rep: &Report) {
                         let maxc = here.iter().map(|c| c.0 .1).max().unwrap_or(0).max(if r == plain.0 { plain.1 } else { 0 });
                         let mut c = 0u32;
                         while c <= maxc {
-                            if let Some(f) = here.iter().find(|x| x.0 .1 == c) { let mut oc = ods::OCell::new(ods::OVal::Float("1".into(), "float")); oc.formula = Some(f.1.clone()); rc.push((oc, 1)); c += 1; }
+                            if let Some(f) = here.iter().find(|x| x.0 .1 == c) { // every third formula cell has no cached value at all (legal: the value attributes are optional)
+                                let mut oc = ods::OCell::new(if (mask + c) % 3 == 0 { ods::OVal::Empty } else { ods::OVal::Float("1".into(), "float") }); oc.formula = Some(f.1.clone()); rc.push((oc, 1)); c += 1; }
                             else if r == plain.0 && c == plain.1 { rc.push((ods::OCell::new(ods::OVal::Float("5".into(), "float")), 1)); c += 1; }
                             else { let next = here.iter().map(|x| x.0 .1).chain(if r == plain.0 { vec![plain.1] } else { vec![] }).filter(|x| *x > c).min().unwrap_or(maxc + 1); rc.push((ods::OCell::empty(), next - c)); c = next; }
                         }
